@@ -41,6 +41,9 @@ def validate_dataset(args):
     issue_list = bids.validate(check_for_warnings=args.check_for_warnings)
     # Output based on format
     if args.format in ("json", "json_pp"):
+        from hed.errors.error_reporter import replace_tag_references
+        # The issues hold references to tag and string objects, which cannot be written as json
+        replace_tag_references(issue_list)
         kw = {"indent": 4} if args.format == "json_pp" else {}
         output = json.dumps(
             {
